@@ -226,10 +226,23 @@ func buildParamAlias(p *Program) {
 			return
 		}
 		n := p.CG.Nodes[g]
-		if n == nil || len(n.In) != 1 {
+		if n == nil {
 			return
 		}
-		e := n.In[0]
+		// promoted-method wrappers of embedding types that nothing calls
+		// are not callers (BatchingState embeds *State: every method of
+		// State has such a wrapper)
+		var in []*callgraph.Edge
+		for _, e := range n.In {
+			if e.Caller != nil && e.Caller.Func != nil && e.Caller.Func.Synthetic != "" && len(e.Caller.In) == 0 {
+				continue
+			}
+			in = append(in, e)
+		}
+		if len(in) != 1 {
+			return
+		}
+		e := in[0]
 		if e.Site == nil || e.Site.Common().StaticCallee() != g || e.Caller.Func == g {
 			return
 		}
